@@ -237,7 +237,7 @@ def ensure_makefile():
             raise RuntimeError("coq_makefile failed: " + err)
 
 
-FILE_LIMIT = int(os.environ.get("VERIF_COQC_LIMIT", "600"))
+FILE_LIMIT = int(os.environ.get("VERIF_COQC_LIMIT", "1500"))
 
 
 def make(targets, timeout=1800):
